@@ -48,6 +48,7 @@ type Universe struct {
 	globalFacts   map[string]*globalFact
 	globalWritten map[string]string
 	fieldWritten  map[string]string
+	initInvs      []*InitInv
 	inlined       map[string]bool // functions inlined into a function under contract during this run
 }
 
@@ -161,6 +162,7 @@ func loadUniverse() (*Universe, error) {
 	}
 	u.checkGlobalFacts()
 	u.checkObjInvWriters()
+	u.checkInitInvs()
 	return u, nil
 }
 
@@ -246,6 +248,7 @@ func (u *Universe) addSpec(sf *SpecFile, path string) error {
 		}
 		walk(oi.E)
 	}
+	u.initInvs = append(u.initInvs, sf.InitInvs...)
 	u.lemmas = append(u.lemmas, sf.Lemmas...)
 	for _, g := range sf.GFacts {
 		u.gfacts = append(u.gfacts, &gfact{clause: g})
@@ -728,4 +731,95 @@ func (u *Universe) objInvFor(t types.Type) *ObjInv {
 		return nil
 	}
 	return u.objinvs[n.Obj().Name()]
+}
+
+// checkInitInvs: (1) the establishing init function gets the invariant as a postcondition;
+// (2) every package variable the invariant mentions is written, or has its address taken,
+// only inside that function (so the fact holds at the entry of every other function).
+func (u *Universe) checkInitInvs() {
+	for _, ii := range u.initInvs {
+		c := u.contracts[ii.By]
+		if c == nil || u.funcs[ii.By] == nil {
+			u.loadErrs = append(u.loadErrs, fmt.Sprintf("initinv %s: no contract (or no function) %s to establish it", ii.Name, ii.By))
+			continue
+		}
+		u.assumes = append(u.assumes, "init invariant "+ii.Name+": proved as a postcondition of "+ii.By+" and assumed at the entry of every other function (a sweep shows nothing else writes the variables it mentions; init functions run before any other code)")
+		cl := *ii.Clause
+		cl.Tags = append(append([]string{}, cl.Tags...), c.Tags...)
+		c.Ensures = append(c.Ensures, &cl)
+		// variables mentioned
+		var vars []string
+		seen := map[string]bool{}
+		var walk func(e Expr)
+		walk = func(e Expr) {
+			switch x := e.(type) {
+			case *EIdent:
+				if _, ok := u.tpkg.Scope().Lookup(x.Name).(*types.Var); ok && !seen[x.Name] {
+					seen[x.Name] = true
+					vars = append(vars, x.Name)
+				}
+			case *EBinary:
+				walk(x.X)
+				walk(x.Y)
+			case *EUnary:
+				walk(x.X)
+			case *ECall:
+				for _, a := range x.Args {
+					walk(a)
+				}
+			case *ECond:
+				walk(x.C)
+				walk(x.A)
+				walk(x.B)
+			case *EIndex:
+				walk(x.X)
+				walk(x.I)
+			case *EField:
+				walk(x.X)
+			case *EQuant:
+				walk(x.Body)
+			case *ELet:
+				walk(x.V)
+				walk(x.Body)
+			}
+		}
+		walk(ii.Clause.E)
+		for _, fn := range u.funcList {
+			if len(fn.Blocks) == 0 || u.displayName(fn) == ii.By {
+				continue
+			}
+			if fn.Pkg != u.pkg && !(fn.Origin() != nil && fn.Origin().Pkg == u.pkg) {
+				continue
+			}
+			for _, b := range fn.Blocks {
+				for _, in := range b.Instrs {
+					for _, op := range in.Operands(nil) {
+						g := rootGlobal(*op)
+						if g == nil || g.Pkg != u.pkg || !seen[g.Name()] {
+							continue
+						}
+						ok := false
+						switch x := in.(type) {
+						case *ssa.UnOp, *ssa.FieldAddr, *ssa.IndexAddr, *ssa.DebugRef:
+							ok = true
+						case ssa.CallInstruction:
+							if sc := x.Common().StaticCallee(); sc != nil && len(x.Common().Args) > 0 && x.Common().Args[0] == *op {
+								ok = readOnlyMethods[u.displayName(sc)]
+							}
+						}
+						if !ok {
+							u.loadErrs = append(u.loadErrs, fmt.Sprintf("initinv %s: package variable %s is written (or its address escapes) in %s, not only in %s", ii.Name, g.Name(), u.displayName(fn), ii.By))
+						}
+					}
+					if mu, ok := in.(*ssa.MapUpdate); ok {
+						if g := rootGlobalVal(mu.Map); g != nil && seen[g.Name()] {
+							u.loadErrs = append(u.loadErrs, fmt.Sprintf("initinv %s: the map in %s is updated in %s, not only in %s", ii.Name, g.Name(), u.displayName(fn), ii.By))
+						}
+					}
+				}
+			}
+		}
+		_ = vars
+	}
+	sort.Strings(u.loadErrs)
 }
